@@ -14,6 +14,8 @@ use vcommon::util;
 
 #[path = "c21rt.rs"]
 mod rt;
+#[path = "c21t.rs"]
+mod threads;
 
 /// fault plan consulted by the `dm_write_fault` switch: 0 = never, 1 = fail every consult,
 /// n >= 10: fail the (n-9)-th consult from now on (then disarm)
@@ -398,6 +400,8 @@ pub fn main() {
             }
             _ => rt::replay(&v),
         }
+    } else if mode == "threads" {
+        threads::main_threads(seed, util::tier_quick())
     } else {
         let cases = util::read_ndjson(&util::arg("--in").expect("--in"));
         match mode.as_str() {
